@@ -48,6 +48,13 @@ func TestWorker(t *testing.T) {
 		os.Setenv("GODEBUG", strings.TrimPrefix(os.Getenv("GODEBUG")+",randseednop=0", ","))
 	}
 	time.Local = time.UTC // segment names are parsed in the local zone
+	if z := os.Getenv("VERIF_TZ"); z != "" { // experiments: the whole process in another zone
+		l, err := time.LoadLocation(z)
+		if err != nil {
+			t.Fatal(err)
+		}
+		time.Local = l
+	}
 	simrt.TraceYields = os.Getenv("VERIF_TRACE_YIELDS") != ""
 	logger.RunningAtomicLevel.SetLevel(zapcore.FatalLevel + 1)
 	if os.Getenv("VERIF_LOG") != "" { // debugging aid: lindb's own error log on stderr
